@@ -113,7 +113,8 @@ def gen_dtype(r, textual):
     bases = TXT_BASES if textual else BIN_BASES
     for _ in range(50):
         n = r.choice([1, 2, 2, 3, 3, 4])
-        mode = r.choice(["<", ">", "<", "mixed"])
+        # text files: one byte order per table (Recfile.write's to_native assumes it; mixed orders are C04/C16's subject)
+        mode = r.choice(["<", ">", "<"] if textual else ["<", ">", "<", "mixed"])
         names = r.sample(NAMES, n)
         fields = []
         for nm in names:
@@ -146,7 +147,8 @@ def gen_value(r, ts, textual):
     if kind == "f":
         pool = F4_SAFE if size == 4 else F8_SAFE
         if r.random() < 0.3:
-            return float(r.randrange(-10 ** 6, 10 ** 6)) / (8.0 if size == 4 else 1000.0)
+            # at most 7 (f4, "%.7g") / 10 (f8, "%.16g") significant decimal digits: exact in the text form
+            return float(r.randrange(-9999, 9999)) / 8.0 if size == 4 else float(r.randrange(-10 ** 6, 10 ** 6)) / 1000.0
         return r.choice(pool)
     if kind == "c":
         return complex(r.choice(F4_SAFE), r.choice(F4_SAFE))
@@ -237,7 +239,7 @@ def incompatible(r, fields, kind, textual):
         return f[:-1] if len(f) >= 2 else None
     if kind in ("renamed-last-field", "other-type-last-field"):
         i = len(f) - 1
-        kind = kind.replace("-last", "")
+        kind = {"renamed-last-field": "renamed-field", "other-type-last-field": "other-type"}[kind]
     shaped = [j for j in range(len(f)) if f[j][2]]
     if kind == "other-shape-same-rank":
         if not shaped:
@@ -656,10 +658,9 @@ class History(Entry):
         if round == 0:
             for dl in DELIMS:
                 cs += adversarial(r, dl is not None, dl)
-        n = ctx.n(120, 3000) if round == 0 else ctx.n(60, 300)
-        maxops = ctx.n(8, 40)
+        n = ctx.n(120, 1200) if round == 0 else ctx.n(60, 200)
         for i in range(n):
-            cs.append(random_history(r, maxops if (ctx.quick() or i % 10) else 40))
+            cs.append(random_history(r, 8 if ctx.quick() else (40 if i % 8 == 0 else 14)))
         return cs
 
     def text_delims(self, c):
@@ -706,20 +707,58 @@ class History(Entry):
             return "FnWrite %s %s c%d %s %s" % (cbool(o["append"]), cdelim(o["dl"]), o["c"], d, u)
         return "Read"
 
-    def _ans(self, ob):
+    def _ans(self, ob, known=(), names=None):
         a = ob["ans"]
         if a[0] == "ok":
             return "OOk"
         if a[0] == "err":
             return "(OErr %s)" % a[1]
-        return "(ORead %s %s (Some %s) %s)" % (cz(a[1]), cdtype(a[2] or []), crows(a[3]), cbytes(bytes.fromhex(a[4])))
+        dt = cdtype(a[2] or [])
+        u = cbytes(bytes.fromhex(a[4]))
+        if names is not None:
+            dt = names.setdefault(("dt", dt), "t%d" % len(names)) if len(dt) > 40 else dt
+            u = names.setdefault(("u", u), "t%d" % len(names)) if len(u) > 40 else u
+        return "(ORead %s %s (Some %s) %s)" % (cz(a[1]), dt, self._rows_term(a[3], known), u)
+
+    @staticmethod
+    def _rows_term(rows, known):
+        """the rows a read returned, written as a concatenation of row lists that are already bound
+        (r<i> = rows of chunk i, b<i> = its text round trip) where they match EXACTLY, literal otherwise"""
+        parts, p, lit = [], 0, []
+        while p < len(rows):
+            hit = None
+            for nm, rl in known:
+                if rl and rows[p:p + len(rl)] == rl:
+                    hit = (nm, len(rl))
+                    break
+            if hit is None:
+                lit.append(rows[p])
+                p += 1
+                continue
+            if lit:
+                parts.append(crows(lit))
+                lit = []
+            parts.append(hit[0])
+            p += hit[1]
+        if lit or not parts:
+            parts.append(crows(lit))
+        return parts[0] if len(parts) == 1 else "(" + " ++ ".join(parts) + ")"
 
     def term(self, c, out):
-        lets = []
+        lets, known = [], []
         for i, (ch, x) in enumerate(zip(c["chunks"], out["chunks"])):
             txt = "[" + "; ".join("(%s, %s)" % (cbytes(dl.encode()), cbytes(bytes.fromhex(t))) for dl, t in x["txt"]) + "]"
-            back = "r%d" % i if x["back"] == ch["rows"] else crows(x["back"])
-            lets.append("let r%d := %s in let c%d := mkc %s r%d %s %s in" % (i, crows(ch["rows"]), i, cdtype(ch["dtype"]), i, back, txt))
+            lets.append("let r%d := %s in" % (i, crows(ch["rows"])))
+            known.append(("r%d" % i, ch["rows"]))
+            if x["back"] == ch["rows"]:
+                back = "r%d" % i
+            else:
+                back = "b%d" % i
+                lets.append("let b%d := %s in" % (i, crows(x["back"])))
+                known.append((back, x["back"]))
+            lets.append("let c%d := mkc %s r%d %s %s in" % (i, cdtype(ch["dtype"]), i, back, txt))
+        known.sort(key=lambda t: -len(t[1]))
+        tnames = {}
         mt = "[" + "; ".join("(%s, (%s, %s, %s))" % (cbytes(e["joined"].encode()), cdelim(e["delim"] if isinstance(e["delim"], str) else None),
                                                       cdtype(e["dtype"] or []), cbytes(bytes.fromhex(e["u"])))
                              for e in out["table"]) + "]"
@@ -748,7 +787,9 @@ class History(Entry):
                 else:
                     prev, prevname = bytes.fromhex(h), names[h]
                 dn = "(Some %s)" % names[h]
-            obs.append("(%s, %s)" % (self._ans(ob), dn))
+            obs.append("(%s, %s)" % (self._ans(ob, known, tnames), dn))
+        for (_, lit), nm in tnames.items():
+            lets.append("let %s := %s in" % (nm, lit))
         return "%s v_history %s %s %s" % (" ".join(lets), mt, ops, "[" + "; ".join(obs) + "]")
 
     def show(self, c):
